@@ -35,7 +35,28 @@ def scratch(prefix: str) -> Path:
 
 
 def _java(gc: str, xmx: str) -> list[str]:
-    return ["java", gc, f"-Xmx{xmx}", "-Xss64m", "-cp", CP]
+    # TLC leaves an empty directory tlc-<n> in java.io.tmpdir per run: keep them out of /tmp, in one place that is swept
+    return ["java", gc, f"-Xmx{xmx}", "-Xss64m", f"-Djava.io.tmpdir={_jtmp()}", "-cp", CP]
+
+
+def _jtmp() -> Path:
+    jtmp = WORK / "jtmp"
+    jtmp.mkdir(parents=True, exist_ok=True)
+    return jtmp
+
+
+def sweep_jtmp() -> None:
+    """Remove what TLC processes of finished runs left in the private java.io.tmpdir (empty tlc-* directories)."""
+    jtmp = WORK / "jtmp"
+    if jtmp.exists():
+        for d in jtmp.iterdir():
+            try:
+                if d.is_dir() and not d.name.startswith("SANY"):
+                    d.rmdir()          # only empty ones: a concurrent run's live directory is not empty or is recreated
+                elif d.is_dir():
+                    shutil.rmtree(d, ignore_errors=True)      # SANY's unpacked standard modules
+            except OSError:
+                pass
 
 
 _RE_STATES = re.compile(
@@ -249,7 +270,7 @@ def validate(
 
 def sany(module: str) -> tuple[bool, str]:
     p = subprocess.run(
-        ["java", "-cp", CP, "tla2sany.SANY", module + ".tla"], cwd=SPEC, capture_output=True, text=True
+        ["java", f"-Djava.io.tmpdir={_jtmp()}", "-cp", CP, "tla2sany.SANY", module + ".tla"], cwd=SPEC, capture_output=True, text=True
     )
     out = p.stdout + p.stderr
     ok = p.returncode == 0 and "Semantic errors" not in out and "*** Errors" not in out and "Fatal" not in out and "Parse Error" not in out
